@@ -209,6 +209,12 @@ Proof.
   destruct (fut_done (fut_of (set_caller w c CTimedOut) c)); exact I.
 Qed.
 
+Lemma caller_cancel_inv w c : Inv w -> Rsat Inv (caller_cancel w c).
+Proof.
+  intros I. unfold caller_cancel. destruct (aget CNone c (callers w)); try exact I.
+  destruct (fut_done (fut_of (set_caller w c CCancelled) c)); exact I.
+Qed.
+
 Lemma caller_wake_inv w c : Inv w -> Rsat Inv (caller_wake w c).
 Proof.
   intros I. unfold caller_wake. destruct (aget CNone c (callers w)); try exact I.
@@ -228,7 +234,8 @@ Qed.
 
 Lemma do_write_inv w n c : Inv w -> Rsat Inv (do_write cmds plan w n c).
 Proof.
-  intros I. unfold do_write. destruct (w_fail (plan n)); [apply set_state_inv_plain; auto|].
+  intros I. unfold do_write. destruct (w_fail (plan n)).
+  { unfold fail_write. destruct (cur (cx w)) as [k|]; [|exact I]. destruct (Nat.eqb k c); [|exact I]. apply set_state_inv_plain; auto. }
   cbn. destruct (w_echo (plan n)); destruct (w_rply (plan n)); destruct (rx_hdr (cmds c)); exact I.
 Qed.
 
@@ -243,10 +250,10 @@ Proof.
   - unfold writer_start. destruct (w_lat (plan (nwrites w)) <=? 0); [apply do_write_inv, I|exact I].
   - exact I.
   - apply do_write_inv, I.
-  - apply caller_start_inv, I.
+  - destruct (aget CNone c (callers w)); try exact I. apply caller_start_inv, I.
   - apply caller_timer_inv, I.
   - apply caller_wake_inv, I.
-  - destruct e as [k|p| | |d]; [exact I|apply pkt_rcvd_inv, I|apply conn_inv, I|apply conn_inv, I|exact I].
+  - destruct e as [k|p| | |d|k]; [exact I|apply pkt_rcvd_inv, I|apply conn_inv, I|apply conn_inv, I|exact I|apply caller_cancel_inv, I].
 Qed.
 
 Lemma boundary_cx lifo w w' : boundary lifo w = Some w' -> cx w' = cx w.
@@ -415,5 +422,36 @@ Proof.
   - eexists. split; [reflexivity|]. eexists _, _. cbn. apply in_or_app. right. left. reflexivity.
   - destruct (match cur (cx w) with Some k => if Nat.eqb k c then set_state w Idle HExpired else Ok w | None => Ok w end) as [w1|n w1];
       eexists; (split; [reflexivity|]); eexists _, _; cbn; apply in_or_app; right; left; reflexivity.
+Qed.
+
+(* a caller cancelled from outside is answered too (with the cancellation) -- and its wake-up leaves the state machine exactly as it was:
+   CancelledError is not TimeoutError, send_cmd resets nothing, so a command in flight is only ever cleared by its expiry timer *)
+Lemma cancelled_caller_answered w c :
+  aget CNone c (callers w) = CCancelled ->
+  exists w', caller_wake w c = Ok w' /\ In (Done (now w) c ErrCancelled) (trace w') /\ cx w' = cx w.
+Proof.
+  intros H. unfold caller_wake. rewrite H. eexists. split; [reflexivity|]. split; [|reflexivity].
+  cbn. apply in_or_app. right. left. reflexivity.
+Qed.
+
+(* an outside cancel of a waiting caller cancels its future (unless it is done already) and schedules that wake-up; the machine is untouched *)
+Lemma cancel_schedules_wake w c :
+  aget CNone c (callers w) = CWaiting ->
+  exists w', caller_cancel w c = Ok w' /\ aget CNone c (callers w') = CCancelled /\ cx w' = cx w /\
+             (fut_done (fut_of w c) = true \/ (In (CbCallerWake c) (ready w') /\ fut_of w' c = FCancelled)).
+Proof.
+  intros H. unfold caller_cancel. rewrite H.
+  assert (G : forall l, aget CNone c (aset c CCancelled l) = CCancelled).
+  { induction l as [|[k v] l IH]; cbn; [rewrite Nat.eqb_refl; reflexivity|].
+    destruct (Nat.eqb c k) eqn:E; cbn; [rewrite Nat.eqb_refl; reflexivity|rewrite E; exact IH]. }
+  assert (G2 : forall l, aget FPending c (aset c FCancelled l) = FCancelled).
+  { induction l as [|[k v] l IH]; cbn; [rewrite Nat.eqb_refl; reflexivity|].
+    destruct (Nat.eqb c k) eqn:E; cbn; [rewrite Nat.eqb_refl; reflexivity|rewrite E; exact IH]. }
+  change (fut_of (set_caller w c CCancelled) c) with (fut_of w c).
+  destruct (fut_done (fut_of w c)) eqn:F.
+  - eexists. split; [reflexivity|]. split; [apply G|]. split; [reflexivity|left; reflexivity].
+  - eexists. split; [reflexivity|]. split; [apply G|]. split; [reflexivity|]. right. split.
+    + cbn. apply in_or_app. right. left. reflexivity.
+    + unfold fut_of. cbn. apply G2.
 Qed.
 End Callers.
